@@ -65,7 +65,13 @@ MANIFEST = dict(
          'stream (one well-formed format of positive size on both sides), using the direction C11 does not state: whatever unpack '
          'returns for bytes fits the format. For the other views the premise is supported by '
          'C11\'s obligations over the generated records, formats, dedup keys, bit fields, entity template and visibility rows, '
-         'discharged here per view on every run (codec[<views>]:<name>); pakfile has none.',
+         'discharged here per view on every run (codec[<views>]:<name>); pakfile has none. '
+         'Round 5 (error paths): save_a models the rebuild loop of BSP.save with the except clause that puts the popped value back '
+         'when a writer raises (generated flag bsp_save_restores_on_abort, obligation aborted_save_puts_the_popped_view_back): the '
+         'clause matters only when the save raises (same flag, same result when it completes), and with it, after ANY history and a '
+         'save that may raise half-way, every view still denotes what the file held and unowned lumps are untouched '
+         '(c10_aborted_save_keeps_content); without it a closed history loses a lump on the second save (the pinned tree before fix '
+         'c8f05ec).',
     note='Assumed in the theorems (visible hypotheses): each lump writer inverts its reader on the file\'s lumps (codec_ok, '
          'wr_len_ok: property C11); decompress (compress d) = d (CPython lzma). The container theorem is about the model '
          'Fmt/BspContainer.v, tied to BSP.read/BSP.save by byte-exact correspondence on random containers (not by a translator of '
@@ -87,7 +93,10 @@ MANIFEST = dict(
          'mutating method calls, followed through BSP methods; changes made inside other classes\' methods are not seen) and '
          'the check pins the list; for (bmodels, ents) the graph hypotheses of the theorem and "nothing that can raise follows '
          'the first change" (a syntactic tail condition on the reader) are obligations, "the writer undoes it" is searched '
-         '(malformed input bmodel_ref, oracle); the texinfo/hammer_id '
+         '(malformed inputs bmodel_ref and seven PHYSCOLLIDE blocks the physics half of the reader rejects, oracle); "a later save after an '
+         'aborted one that COMPLETES is lossless" is searched only (the theorem stops at what the object denotes after the aborted save); '
+         'the translator reads only the shape of the handler around the writer call (bare / Exception / BaseException, store of the popped '
+         'name under the loop variable, re-raise, every use of the writer result inside the try); the texinfo/hammer_id '
          'fields the face readers set on the shared orig_faces objects are searched only. Not modelled, '
          'searched only: VitaminSource-only branches, '
          'zipfile. A save that raises because a writer looks at an unparsable view of a malformed file produces no '
